@@ -101,7 +101,22 @@ BigRecv == LET ua(t, n) == [t |-> t, rsv |-> 0, v |-> D(n, t), pad |-> << >>] IN
            [code |-> 1, id |-> 77, m |-> "aka", sub |-> 1, rsv |-> 0,
             attrs |-> << ua(0, 2), AkaAttrPlain(AV(AT_RAND, 16)), AkaAttrPlain(AV(AT_AUTN, 16)), AkaAttrPlain(AV(AT_MAC, 16)),
                          ua(135, 1018), ua(136, 1018), ua(137, 1018), ua(138, 1018), ua(139, 1018), ua(254, 6), ua(255, 2) >>]   \* both ends of the type space
-ReceiverSeq == SetToSeqAny(ReceiverSet) \o << << BigRecv, "recv-big" >> >>
+\* received packets (ascending attribute types, zero reserved octets) holding attributes the library has no setter for -- AT_NOTIFICATION,
+\* AT_CLIENT_ERROR_CODE, AT_AUTS, AT_COUNTER, AT_NONCE_S -- and AT_RES / AT_KDF_INPUT values followed by a whole word of zero padding more
+\* than needed: the code is over the octets that arrived
+OtherRecv ==
+  LET ua(t, v) == [t |-> t, rsv |-> 0, v |-> v, pad |-> << >>]
+      pk(id, sub, attrs) == [code |-> 1, id |-> id, m |-> "aka", sub |-> sub, rsv |-> 0, attrs |-> attrs]
+      wide(t, n, extra) == [t |-> t, rsv |-> 8 * n, v |-> D(n, 60 + t), pad |-> Zeros(PadTo4(4 + n) + extra)] IN
+  << << pk(80, 12, << AkaAttrPlain(AV(AT_MAC, 16)), ua(12, << 128, 0 >>) >>), "recv-other" >>,
+     << pk(81, 12, << AkaAttrPlain(AV(AT_MAC, 16)), ua(12, << 0, 0 >>) >>), "recv-other" >>,
+     << pk(82, 14, << AkaAttrPlain(AV(AT_MAC, 16)), ua(22, << 0, 1 >>) >>), "recv-other" >>,
+     << pk(83, 4, << ua(4, D(14, 5)), AkaAttrPlain(AV(AT_MAC, 16)) >>), "recv-other" >>,
+     << pk(84, 13, << AkaAttrPlain(AV(AT_MAC, 16)), ua(19, << 0, 7 >>), ua(21, D(18, 6)) >>), "recv-other" >>,
+     << pk(85, 1, << wide(AT_RES, 8, 4), AkaAttrPlain(AV(AT_MAC, 16)) >>), "recv-widepad" >>,
+     << pk(86, 1, << wide(AT_RES, 5, 8), AkaAttrPlain(AV(AT_MAC, 16)) >>), "recv-widepad" >>,
+     << pk(87, 1, << AkaAttrPlain(AV(AT_RAND, 16)), AkaAttrPlain(AV(AT_AUTN, 16)), AkaAttrPlain(AV(AT_MAC, 16)), wide(AT_KDF_INPUT, 7, 4), AkaAttrPlain([t |-> AT_KDF, v |-> << 0, 1 >>]) >>), "recv-widepad" >> >>
+ReceiverSeq == SetToSeqAny(ReceiverSet) \o << << BigRecv, "recv-big" >> >> \o OtherRecv
 
 \* ---- C16
 KeyLens16 == << 0, 1, 15, 16, 17, 32, 64 >>
@@ -133,6 +148,30 @@ DupVector ==
                          k(1), k(2), k(3), AkaAttrPlain(AV(AT_KDF_INPUT, 7)), AkaAttrPlain(AV(AT_MAC, 16)) >>]
       b == EncEapW(w) IN
   Vector("eap_dup", [q \in 1..3 |-> Step("eap_reencode", << "C12", "C20", "C14" >>[q], FALSE, [wire |-> b], [stable |-> TRUE] @@ ExpectEapReencode(b))])
+\* AT_RES / AT_KDF_INPUT twice in one packet with the SAME length octet and different actual lengths (5 then 8 octets, both three
+\* words): no crash, and whatever the decoder makes of it is stable (C04 C12 C20 C14)
+DupVector2 ==
+  LET w == [code |-> 2, id |-> 45, m |-> "aka", sub |-> 1, rsv |-> 0,
+            attrs |-> << AkaAttrPlain([t |-> AT_RES, v |-> D(5, 31)]), AkaAttrPlain([t |-> AT_RES, v |-> D(8, 32)]),
+                         AkaAttrPlain([t |-> AT_KDF_INPUT, v |-> D(5, 33)]), AkaAttrPlain([t |-> AT_KDF_INPUT, v |-> D(8, 34)]),
+                         AkaAttrPlain([t |-> AT_RES, v |-> D(6, 35)]), AkaAttrPlain(AV(AT_MAC, 16)) >>]
+      b == EncEapW(w) IN
+  Vector("eap_dup", << Step("eap_decode", "C04", FALSE, [wire |-> b, caps |-> TRUE], ExpectEapDecode(b)) >>
+                    \o [q \in 1..3 |-> Step("eap_reencode", << "C12", "C20", "C14" >>[q], FALSE, [wire |-> b], [stable |-> TRUE] @@ ExpectEapReencode(b))])
+\* a refused packet leaves nothing behind: four rounds of a packet the decoder must refuse in the middle of its attribute list (a length
+\* octet that runs past the end, an attribute cut short), then a well-formed packet, which decodes to its value (C14 C04)
+RejectAcceptVector ==
+  LET g1 == EncEapW([code |-> 1, id |-> 46, m |-> "aka", sub |-> 1, rsv |-> 0,
+                     attrs |-> << AkaAttrPlain(AV(AT_RAND, 16)), AkaAttrPlain(AV(AT_AUTN, 16)), AkaAttrPlain([t |-> AT_KDF, v |-> << 0, 1 >>]),
+                                  AkaAttrPlain(AV(AT_KDF_INPUT, 7)), AkaAttrPlain(AV(AT_MAC, 16)) >>])
+      g2 == EncEapW([code |-> 2, id |-> 47, m |-> "aka", sub |-> 1, rsv |-> 0, attrs |-> << AkaAttrPlain([t |-> AT_RES, v |-> D(8, 36)]) >>])
+      bad1 == [g1 EXCEPT ![10] = 6]                       \* AT_RAND announces six words
+      bad2 == [g1 EXCEPT ![Len(g1) - 18] = 9]             \* AT_MAC (the last attribute) announces nine words
+      \* (the refused packet is offered ONCE -- caps FALSE: one presentation -- so that exactly one refused call precedes the good one)
+      round(bad, good, p) == << Step("eap_decode", p, FALSE, [wire |-> bad, caps |-> FALSE], ExpectEapDecode(bad)),
+                                Step("eap_decode", p, FALSE, [wire |-> good, caps |-> TRUE], ExpectEapDecode(good)) >> IN
+  Vector("eap_reject_accept", round(bad1, g2, "C14") \o round(bad2, g1, "C04") \o round(bad1, g1, "C14") \o round(bad2, g2, "C04")
+                              \o round(bad1, g2, "C04") \o round(bad2, g1, "C14"))
 \* EAP-5G (expanded type, vendor 10415, type 3): the vendor data is opaque to the codec; every prefix of a well-formed 5G-NAS
 \* request / response (message id, spare, AN-parameters with two entries, NAS length, NAS PDU) and of a 5G-Start must decode to that
 \* opaque value -- no crash whatever structure a decoder may look for in it (C04 C14)
@@ -142,14 +181,15 @@ Eap5GVector(resp) ==
       pk(n) == [code |-> IF resp THEN 2 ELSE 1, id |-> 60 + n, m |-> "expanded", vid |-> 10415, vtype |-> << 0, 0, 0, 3 >>, data |-> Take(full, n)] IN
   Vector("eap5g", [n \in 1..(Len(full) + 1) |->
      LET b == EncEap(pk(n - 1)) IN Step("eap_decode", IF n % 2 = 0 THEN "C04" ELSE "C14", FALSE, [wire |-> b, caps |-> TRUE], ExpectEapDecode(b))])
-Count(k) == CASE k = "unknown" -> 12 [] k = "eap" -> Len(EapPool) [] k = "code" -> 256 [] k = "set" -> 7 [] k = "sender" -> Len(EapPool) [] k = "receiver" -> Len(ReceiverSeq)
+Count(k) == CASE k = "unknown" -> 14 [] k = "eap" -> Len(EapPool) [] k = "code" -> 256 [] k = "set" -> 7 [] k = "sender" -> Len(EapPool) [] k = "receiver" -> Len(ReceiverSeq)
               [] k = "prf" -> 49 * Len(IdPool)
 SetTypes == << AT_RAND, AT_AUTN, AT_RES, AT_MAC, AT_KDF_INPUT, AT_KDF, AT_CHECKCODE >>
 Init == stage = 0 /\ kind = "" /\ i = 0
 Next == \/ stage = 0 /\ stage' = 1 /\ kind' \in Kinds /\ i' = 0
         \/ stage = 1 /\ stage' = 2 /\ kind' = kind /\ i' \in 1..Count(kind)
         \/ stage = 2 /\ UNCHANGED << stage, kind, i >>
-Vec == CASE kind = "unknown" -> IF i = 9 THEN BigEapVector ELSE IF i = 10 THEN DupVector ELSE IF i >= 11 THEN Eap5GVector(i = 12) ELSE UnknownAttrVector(i)
+Vec == CASE kind = "unknown" -> IF i = 9 THEN BigEapVector ELSE IF i = 10 THEN DupVector ELSE IF i = 13 THEN DupVector2 ELSE IF i = 14 THEN RejectAcceptVector
+                              ELSE IF i >= 11 THEN Eap5GVector(i = 12) ELSE UnknownAttrVector(i)
          [] kind = "eap" -> EapVector(EapPool[i])
          [] kind = "code" -> CodeVector(i - 1)
          [] kind = "set" -> SetterVector(SetTypes[i])
